@@ -318,7 +318,7 @@ def buildFilters (a : Options) : List Filter :=
 
 /-- What a session does that the outside can see. -/
 inductive Ev
-  | robotsTxt (forUrl : Info)              -- robots.txt of the origin of `forUrl` is fetched
+  | robotsTxt (forUrl : Info)              -- robots.txt of the origin of `forUrl` is fetched (item URL or redirect target)
   | request (u : Info) (isRedirect : Bool)  -- a fetch of `u` is started (`isRedirect`: the flag handed to the consultation)
   | skip                                    -- `item_session.skip()`
   deriving DecidableEq, Repr
@@ -328,47 +328,58 @@ structure Cfg where
   strongRedirects : Bool := true
   robots : Bool := false
 
-/-- What the server / the rest of the client answers to one fetch. -/
-inductive Resp
-  | redirect (target : Info)   -- redirect status with a usable Location: next request is `target`
-  | retrySame                  -- 401 with a password at hand: same URL again, not a redirect
-  | finish                     -- anything else (document, error, exit_early, too many redirects)
-  deriving DecidableEq, Repr
-
-/-- What the robots.txt checker does when `check_initial_web_request` asks it. -/
+/-- What the robots.txt checker does when it is asked about a URL
+(`FetchRule.consult_robots_txt`). -/
 inductive RobotsOutcome
   | cached (allow : Bool)      -- parser in the pool: no request
   | fetched (allow : Bool)     -- robots.txt fetched, then asked
   | error                      -- the fetch raised one of REMOTE_ERRORS
   deriving DecidableEq, Repr
 
+/-- What the server / the rest of the client answers to one fetch. -/
+inductive Resp
+  /-- redirect status with a usable Location: next request is `target`; `rob` is what the
+  robots.txt checker will do if it is asked about `target` -/
+  | redirect (target : Info) (rob : RobotsOutcome)
+  | retrySame                  -- 401 with a password at hand: same URL again, not a redirect
+  | finish                     -- anything else (document, error, exit_early, too many redirects)
+  deriving DecidableEq, Repr
+
+/-- The robots.txt gate for URL `u` in front of the events `rest`: a denial skips the
+item, an error ends the session, a fetch is visible as a robots.txt request for `u`'s origin. -/
+def robotsGate (u : Info) (rob : RobotsOutcome) (rest : List Ev) : List Ev :=
+  match rob with
+  | .cached true => rest
+  | .cached false => [.skip]
+  | .fetched true => .robotsTxt u :: rest
+  | .fetched false => [.robotsTxt u, .skip]
+  | .error => [.robotsTxt u]
+
 /-- `WebProcessorSession._process_loop` with `_should_fetch_reason` inlined:
 `next` = `web_client_session.next_request().url_info`,
-`redir` = `redirect_tracker.is_redirect()`. -/
-def webLoop (o : Oracles) (c : Cfg) (r : Rec) : Info → Bool → List Resp → List Ev
-  | next, redir, resps =>
+`redir` = `redirect_tracker.is_redirect()`, `rob` = the checker's behaviour for `next`.
+First the filters; for an accepted redirect target then robots.txt (if a checker is
+configured); then the fetch. -/
+def webLoop (o : Oracles) (c : Cfg) (r : Rec) : Info → Bool → RobotsOutcome → List Resp → List Ev
+  | next, redir, rob, resps =>
     if !consultOk o c.fs next r (c.strongRedirects && redir) then [.skip]
     else
-      .request next (c.strongRedirects && redir) ::
-        match resps with
-        | [] => []
-        | .redirect t :: rest => webLoop o c r t true rest
-        | .retrySame :: rest => webLoop o c r next false rest
-        | .finish :: _ => []
+      let go : List Ev :=
+        .request next (c.strongRedirects && redir) ::
+          match resps with
+          | [] => []
+          | .redirect t rb :: rest => webLoop o c r t true rb rest
+          | .retrySame :: rest => webLoop o c r next false (.cached true) rest
+          | .finish :: _ => []
+      if redir && c.robots then robotsGate next rob go else go
 
 /-- `WebProcessorSession.process`: `_process_robots` (= `check_initial_web_request`), then the loop. -/
 def webProcess (o : Oracles) (c : Cfg) (r : Rec) (u0 : Info) (rob : RobotsOutcome)
     (resps : List Resp) : List Ev :=
   let v := consultOk o c.fs u0 r false
-  if v && c.robots then
-    match rob with
-    | .cached true => webLoop o c r u0 false resps
-    | .cached false => [.skip]
-    | .fetched true => .robotsTxt u0 :: webLoop o c r u0 false resps
-    | .fetched false => [.robotsTxt u0, .skip]
-    | .error => [.robotsTxt u0]
+  if v && c.robots then robotsGate u0 rob (webLoop o c r u0 false (.cached true) resps)
   else if !v then [.skip]
-  else webLoop o c r u0 false resps
+  else webLoop o c r u0 false (.cached true) resps
 
 /-- How `FTPProcessorSession.process` gets from the item URL to the request it sends. -/
 inductive FtpShape
